@@ -46,6 +46,7 @@ class FileModel:
         self.abuf = None        # attached buffer size
         self.maxput = None; self.maxget = None
         self.saved = None       # schema snapshot taken at redef (for abort)
+        self.ghost_redef_from = None
         self._staged = None
 
     # ------------------------------------------------------------ helpers
@@ -74,7 +75,7 @@ class FileModel:
 
     def canon(self):
         """canonical state: everything the transition function reads and the oracle observes"""
-        return json.dumps([self.mode, self.rdonly, self.fmt, self.dims, [[a[0], a[1], list(a[2]) if not isinstance(a[2], bytes) else a[2].hex(), a[3]] for a in self.gatts],
+        return json.dumps([self.mode, self.ghost_redef_from if self.mode == DEF_RE else None, self.rdonly, self.fmt, self.dims, [[a[0], a[1], list(a[2]) if not isinstance(a[2], bytes) else a[2].hex(), a[3]] for a in self.gatts],
                            [[v['name'], v['xtype'], v['dimids'], [[a[0], a[1], list(a[2]) if not isinstance(a[2], bytes) else a[2].hex(), a[3]] for a in v['atts']], v['nofill']] for v in self.vars],
                            self.fillmode, self.numrecs, sorted((v, sorted(d.items())) for v, d in self.data.items() if d),
                            [(p['kind'], p['v'], p['idx'], p.get('bput', False)) for p in self.pending], self.abuf], default=str, sort_keys=True)
@@ -99,6 +100,8 @@ class FileModel:
                  gatts=atts(self.gatts),
                  vars=[dict(n=v['name'].encode('utf-8').hex(), t=v['xtype'], id=i, dimids=list(v['dimids']), atts=atts(v['atts']), nofill=(None if v['nofill'] is None else (1 if v['nofill'] else 0))) for i, v in enumerate(self.vars)],
                  mfp={DEF_NEW: [D.NC_EINDEFINE, D.NC_EINDEFINE], DEF_RE: [D.NC_EINDEFINE, D.NC_EINDEFINE], COLL: [D.NC_ENOTINDEP, 0], INDEP: [0, D.NC_EINDEP]}.get(self.mode))
+        ok = 0 if self.vars else D.NC_ENOTVAR
+        d['mfp2'] = {DEF_NEW: [D.NC_EINDEFINE, D.NC_EINDEFINE], DEF_RE: [D.NC_EINDEFINE, D.NC_EINDEFINE], COLL: [D.NC_ENOTINDEP, ok], INDEP: [ok, D.NC_EINDEP]}.get(self.mode)
         if un >= 0: d['numrecs'] = self.numrecs
         return d
 
@@ -122,6 +125,7 @@ class FileModel:
         if self.rdonly: return D.NC_EPERM
         if self.indef(): return D.NC_EINDEFINE
         self.saved = dict(dims=copy.deepcopy(self.dims), gatts=copy.deepcopy(self.gatts), vars=copy.deepcopy(self.vars), fillmode=self.fillmode)
+        self.ghost_redef_from = self.mode      # ghost: does not influence the model, only keeps such states apart in the search
         self.mode = DEF_RE
         return 0
 
